@@ -504,6 +504,9 @@ def run(case):
             elif op['op'] == 'w' and j in touched and not calls and all(t == j for t in touched) and \
                     (addr - model.devs[j][0]) + size <= len(model.devs[j][2]) and 'multi' not in op:
                 bad = (j, 'store_never_reached_the_device')
+            elif op['op'] == 'r' and j in touched and not calls and all(t == j for t in touched) and \
+                    (addr - model.devs[j][0]) + size <= len(model.devs[j][2]) and 'multi' not in op:
+                bad = (j, 'load_never_reached_the_device')          # (a device need not be a memory: its read() is the only way to its data)
         if bad:
             viol.append({'oracle': 'hub.model', 'site': path + ':' + op['op'], 'cls': bad[1], 'tick': idx,
                          'detail': 'device %d: %s size %d at %#x produced device calls %s' % (bad[0], op['op'], size, addr, rams[bad[0]].log[:4])})
